@@ -610,6 +610,53 @@ theorem memo_invisible_when_key_stored (w : Thermo.World φ (Dict ρ) ρ) (o : D
 
 end MemoSec
 
+/-! ## The defect class "a read-only query binds a new name on the isotherm": invisible iff the name is reserved -/
+
+section ExportSec
+open ThermoMemo Export
+
+omit [DecidableEq φ] in
+/-- **a name bound by a query is invisible in `to_dict()` (hence in the identifier, `==` and the exports) exactly when it is reserved** -/
+theorem bound_name_invisible_iff (reserved : List String) (vars : Dict ρ) (name : String) (v : ρ) (hn : vars.lookup name = none) :
+    toDict reserved (setdefault vars name v) = toDict reserved vars ↔ name ∈ reserved := by
+  unfold toDict setdefault
+  simp only [hn, List.filter_append]
+  by_cases h : name ∈ reserved
+  · simp [h]
+  · simp [h]
+
+omit [DecidableEq φ] in
+/-- **an isotherm that stores its temperature in kelvin is untouched by the memoising read** whatever the name: the defect needs
+another stored unit to manifest -/
+theorem readTemperature_kelvin_untouched (toKelvin : ρ → ρ) (stored : ρ) (memoName : String) (vars : Dict ρ) :
+    readTemperature toKelvin "K" stored memoName vars = (stored, vars) := by
+  simp [readTemperature]
+
+omit [DecidableEq φ] in
+/-- the memoising read returns the right value in every stored unit (no numerical query can see the defect) -/
+theorem readTemperature_value (toKelvin : ρ → ρ) (unit : String) (stored : ρ) (memoName : String) (vars : Dict ρ) :
+    (readTemperature toKelvin unit stored memoName vars).1 = if unit = "K" then stored else toKelvin stored := by
+  unfold readTemperature
+  split <;> rfl
+
+/-- an isotherm at -196 °C (numbers scaled by 100): instance dictionary of the constructor, reserved names of `BaseIsotherm` -/
+def celsiusVars : Dict ℤ := [("_temperature", -19600), ("pressure_unit", 1), ("user", 7)]
+def reservedNames : List String := ["_material", "_adsorbate", "_temperature", "m", "t", "a"]
+
+/-- the hypothesis of `bound_name_invisible_iff` on the witness isotherm: the memo name is not bound by the constructor -/
+example : celsiusVars.lookup "_kelvin" = none := by decide
+
+/-- **witness (seedout7/C04-m1)**: stored in °C, the first read of the temperature adds a key to `to_dict()`; the same isotherm kept in
+kelvin does not change; had the memo name been reserved, nothing would show -/
+theorem memo_leaks_into_export :
+    toDict reservedNames (readTemperature (· + 27315) "°C" (-19600) "_kelvin" celsiusVars).2 ≠ toDict reservedNames celsiusVars ∧
+    (readTemperature (· + 27315) "°C" (-19600) "_kelvin" celsiusVars).1 = 7715 ∧
+    toDict reservedNames (readTemperature (· + 27315) "K" 7715 "_kelvin" celsiusVars).2 = toDict reservedNames celsiusVars ∧
+    toDict ("_kelvin" :: reservedNames) (readTemperature (· + 27315) "°C" (-19600) "_kelvin" celsiusVars).2 = toDict ("_kelvin" :: reservedNames) celsiusVars := by
+  decide
+
+end ExportSec
+
 /-! ## Module-level caches of loaded curves and kernels -/
 
 section LoadedSec
